@@ -60,13 +60,13 @@ Theorem C23_dsis_add : forall w s t, Forall (wfw w) s -> Forall (wfw w) t ->
 Proof. exact dsis_add_sound. Qed.
 Print Assumptions C23_dsis_add.
 
-Theorem C23_dsis_sub : forall w s t, Forall (wfw w) s -> Forall (wfw w) t -> Forall aligned t ->
+Theorem C23_dsis_sub : forall w s t, Forall (wfw w) s -> Forall (wfw w) t -> Forall proper t ->
   exists r, dsis_sub s t = Ok r /\ Forall (wfw w) r /\
     forall x y, gset si gamma s x -> gset si gamma t y -> gset si gamma r ((x - y) mod 2 ^ w).
 Proof. exact dsis_sub_sound. Qed.
 Print Assumptions C23_dsis_sub.
 
-Theorem C23_dsis_neg : forall w s, Forall (wfw w) s -> Forall aligned s ->
+Theorem C23_dsis_neg : forall w s, Forall (wfw w) s -> Forall proper s ->
   exists r, dsis_neg s = Ok r /\ Forall (wfw w) r /\ forall y, gset si gamma s y -> gset si gamma r ((- y) mod 2 ^ w).
 Proof. exact dsis_neg_sound. Qed.
 Print Assumptions C23_dsis_neg.
